@@ -381,7 +381,10 @@ WillWake == IF host = "tokio" THEN (hReady \/ (hEdge /\ Level)) ELSE Level
 \* completion queue / the poller / the completed channel unless the waited descriptor will report it
 UnprocessedCompletion == \/ cq > 0 \/ \E o \in Ops : opSt[o] = "cqe"
                          \/ \E j \in Jobs : jobSt[j] = "woke" /\ ~jobTaken[j]
-NoStrandedCompletion == (Parked /\ tmo = "none" /\ UnprocessedCompletion) => WillWake
+\* (a wake-up whose eventfd write / notifier completion is still on its way will end the sleep)
+SigInFlight == \/ owed > 0 \/ \E w \in Wakers : pcW[w] \in {"write", "writeFull"}
+               \/ \E j \in Jobs : jobSt[j] = "write"
+NoStrandedCompletion == (Parked /\ tmo = "none" /\ UnprocessedCompletion /\ ~SigInFlight) => WillWake
 \* NO WAKE-UP IS LOST (Wakeup!Stuck carried over to the adapter's wait): parked without bound, nothing in flight
 \* anywhere, the wait will not return, and somebody has not been polled since its condition was set
 Quiet == /\ \A w \in Wakers : pcW[w] = "done"
